@@ -184,6 +184,24 @@ struct Tot {
     polls: u64,
 }
 
+// instruction-step scenario (5): at the k-th instruction after the consumer's arrival at a site, a closer thread
+// runs close() to completion while the consumer stands still at that instruction
+static STEP_K: AtomicU64 = AtomicU64::new(0);
+static CLOSE_GO: AtomicU64 = AtomicU64::new(0);
+static CLOSE_DONE: AtomicU64 = AtomicU64::new(0);
+static LAST_STEP: Mutex<(u64, bool)> = Mutex::new((0, false));
+
+fn close_step_action(_k: u64, _rip: usize) {
+    CLOSE_GO.store(1, Ordering::SeqCst);
+    let mut i = 0u64;
+    while CLOSE_DONE.load(Ordering::SeqCst) == 0 {
+        i += 1;
+        if i % 64 == 0 {
+            unsafe { libc::sched_yield() };
+        }
+    }
+}
+
 #[allow(clippy::too_many_arguments)]
 fn trial(front: Front, scenario: u32, psite: u32, occ: u64, with_signal: bool, sig: c_int, rng: &mut Rng, tot: &mut Tot) {
     director::clear_rules();
@@ -224,6 +242,11 @@ fn trial(front: Front, scenario: u32, psite: u32, occ: u64, with_signal: bool, s
     match scenario {
         0 => director::set_rule(psite, RuleSpec { mode: mode::PAUSE, class_mask: class::CONSUMER, nth: occ, arg: 0, ..Default::default() }),
         1 => director::set_rule(site::IT_CLOSE_FLAGGED, RuleSpec { mode: mode::PAUSE, class_mask: class::MUTATOR, nth: 1, arg: 1, ..Default::default() }),
+        5 => {
+            CLOSE_GO.store(0, Ordering::SeqCst);
+            CLOSE_DONE.store(0, Ordering::SeqCst);
+            crate::istep::plan_for(5, psite, occ, STEP_K.load(Ordering::SeqCst), 20_000, u64::MAX, u64::MAX, true, close_step_action);
+        }
         _ => {
             for s in [site::IT_PS_LOOP, site::IT_PS_ITER_EMPTY, site::IT_PP_CLOSED_CHECKED, site::IT_HAS_BEFORE_READ, site::IT_FLUSH_BEGIN, site::IT_FLUSH_END, site::IT_CLOSE_FLAGGED, site::IT_PP_ASKED] {
                 director::set_rule(s, RuleSpec { mode: mode::DELAY, p: 20000, max: 2000, ..Default::default() });
@@ -235,7 +258,10 @@ fn trial(front: Front, scenario: u32, psite: u32, occ: u64, with_signal: bool, s
         std::thread::spawn(move || {
             crate::set_thread(5, class::CONSUMER);
             director::seed_thread(5);
-            consumer(front, inst, obs)
+            consumer(front, inst, obs);
+            if crate::istep::is_active() {
+                crate::istep::disarm();
+            }
         })
     };
     let t0 = crate::now_ms();
@@ -327,6 +353,51 @@ fn trial(front: Front, scenario: u32, psite: u32, occ: u64, with_signal: bool, s
             }
             director::rule_off(site::IT_CLOSE_FLAGGED);
             director::open_gate(1);
+        }
+        5 => {
+            let h = clone_a.clone();
+            let done = closer_done.clone();
+            closer_join = Some(std::thread::spawn(move || {
+                crate::set_thread(6, class::MUTATOR);
+                while CLOSE_GO.load(Ordering::SeqCst) == 0 {
+                    std::hint::spin_loop();
+                }
+                h.close();
+                director::lib_exit();
+                director::flush_counts();
+                done.store(true, Ordering::SeqCst);
+                CLOSE_DONE.store(1, Ordering::SeqCst);
+            }));
+            if cons_pthread_hint {
+                deliver(1);
+            }
+            let tw = crate::now_ms();
+            let st = crate::istep::state_of(5);
+            while !closer_done.load(Ordering::SeqCst) {
+                std::thread::yield_now();
+                if obs.done.load(Ordering::SeqCst) || crate::now_ms() - tw > 100 {
+                    break;
+                }
+            }
+            let fired = st.fired.load(Ordering::SeqCst) > 0;
+            if !fired {
+                // the k-th instruction was not reached (the consumer blocks before it, or the window is shorter)
+                reached = false;
+                tot.site_not_reached += 1;
+                crate::istep::cancel_plan(5);
+                CLOSE_GO.store(1, Ordering::SeqCst);
+            } else {
+                tot.paused_consumer += 1;
+                tot.keys.insert(format!("{:?}:step@{}#{}:{}", front, director::site_name(psite), occ, with_signal));
+            }
+            let tw = crate::now_ms();
+            while !closer_done.load(Ordering::SeqCst) && crate::now_ms() - tw < 10_000 {
+                std::thread::yield_now();
+            }
+            if !clone_a.is_closed() || !clone_b.is_closed() || !handle.is_closed() {
+                tot.bad.push(("is-closed-not-sticky".into(), format!("is_closed() false on a clone after close() returned [{}]", label)));
+            }
+            *LAST_STEP.lock().unwrap() = (0, fired);
         }
         4 => {
             // a storm of the watched signal before, during and after close(): the iterator must still end, after at most a
@@ -455,6 +526,10 @@ fn trial(front: Front, scenario: u32, psite: u32, occ: u64, with_signal: bool, s
     if obs.done.load(Ordering::SeqCst) {
         let _ = cj.join();
     }
+    if scenario == 5 {
+        crate::istep::cancel_plan(5);
+        LAST_STEP.lock().unwrap().0 = crate::istep::LAST_GAP[5].load(Ordering::SeqCst);
+    }
     // sticky after more deliveries
     deliver(1);
     if !handle.is_closed() || !clone_b.is_closed() {
@@ -494,6 +569,113 @@ pub fn main(args: &[String]) -> i32 {
         site::IT_PS_LOOP, site::IT_PS_ITER_EMPTY, site::IT_PP_CLOSED_CHECKED, site::IT_PP_ASKED, site::IT_HAS_BEFORE_READ,
         site::IT_FLUSH_BEGIN, site::IT_FLUSH_END, site::IT_SCAN, site::EX_LOAD,
     ];
+    if crate::arg_str(args, "--mode", "") == "istep" {
+        // ---- instruction-step sweep (sharded over child processes)
+        let of = arg_u64(args, "--of", 0);
+        let stride = arg_u64(args, "--stride", 1).max(1);
+        if !crate::istep::supported() {
+            emit(&J::obj().set("type", J::s("inconclusive")).set("reason", J::s("instruction stepping needs x86-64 Linux")));
+            return 2;
+        }
+        if of == 0 {
+            let n = arg_u64(args, "--shards", 8).max(1);
+            let exe = std::env::current_exe().expect("exe");
+            let mut kids = Vec::new();
+            for i in 0..n {
+                let mut a: Vec<String> = vec!["w_close".into()];
+                a.extend(args.iter().cloned());
+                a.extend(["--shard".to_string(), i.to_string(), "--of".to_string(), n.to_string()]);
+                kids.push(std::process::Command::new(&exe).args(&a).stdout(std::process::Stdio::piped()).spawn().expect("spawn shard"));
+            }
+            let mut code = 0;
+            for k in kids {
+                let out = k.wait_with_output().expect("shard output");
+                print!("{}", String::from_utf8_lossy(&out.stdout));
+                let c = out.status.code().unwrap_or(101);
+                if c == 1 || (c != 0 && code == 0) {
+                    code = c;
+                }
+            }
+            return code;
+        }
+        let shard = arg_u64(args, "--shard", 0);
+        crate::istep::install();
+        let mut idx = 0u64;
+        let mut windows = 0u64;
+        'sweep: for front in [Front::Wait, Front::Forever, Front::Poll] {
+            for s in sites.iter() {
+                let valid = match front {
+                    Front::Wait => ![site::IT_PS_LOOP, site::IT_PS_ITER_EMPTY, site::IT_PP_ASKED].contains(s),
+                    Front::Forever => *s != site::IT_PP_ASKED,
+                    Front::Poll => *s != site::IT_HAS_BEFORE_READ,
+                };
+                // IT_PP_ASKED is emitted by the harness's own callback, not by the library
+                if !valid || *s == site::IT_PP_ASKED {
+                    continue;
+                }
+                for occ in 1..=2u64 {
+                    for with_signal in [false, true] {
+                        // whole windows are dealt out to the shards (the measuring trial is per window)
+                        idx += 1;
+                        if idx % of != shard {
+                            continue;
+                        }
+                        STEP_K.store(u64::MAX - 1, Ordering::SeqCst);
+                        trial(front, 5, *s, occ, with_signal, sig, &mut rng, &mut tot);
+                        let gap = LAST_STEP.lock().unwrap().0.min(1500);
+                        windows += 1;
+                        let mut k = 1 + (seed % stride);
+                        while k <= gap + 1 {
+                            STEP_K.store(k, Ordering::SeqCst);
+                            trial(front, 5, *s, occ, with_signal, sig, &mut rng, &mut tot);
+                            if !tot.bad.is_empty() || tot.inconclusive.is_some() {
+                                break 'sweep;
+                            }
+                            if !LAST_STEP.lock().unwrap().1 {
+                                // not reached: the consumer blocks before the k-th instruction; larger k will not be reached either
+                                break;
+                            }
+                            k += stride;
+                        }
+                    }
+                }
+            }
+        }
+        director::flush_counts();
+        director::uninstall();
+        let mut nviol = 0;
+        let mut seen = std::collections::HashSet::new();
+        for (sigv, d) in tot.bad.iter() {
+            if seen.insert(sigv.clone()) {
+                emit_violation("C11", sigv, d);
+                nviol += 1;
+            }
+        }
+        emit(&J::obj()
+            .set("type", J::s("summary"))
+            .set("workload", J::s("w_close"))
+            .set("mode", J::s("istep"))
+            .set("seed", J::u(seed))
+            .set("shard", J::u(shard))
+            .set("evaluations", J::u(tot.paused_consumer))
+            .set("distinct_keys", J::arr(tot.keys.iter().map(|k| J::s(k))))
+            .set("samples", J::Arr(tot.samples.iter().take(3).cloned().collect()))
+            .set("step_trials", J::u(tot.trials))
+            .set("step_trials_fired", J::u(tot.paused_consumer))
+            .set("step_windows_measured", J::u(windows))
+            .set("trials_site_not_reached", J::u(tot.site_not_reached))
+            .set("poll_signal_calls", J::u(tot.polls))
+            .set("poll_pending_results_checked", J::u(tot.pending_results))
+            .set("violations", J::u(nviol))
+            .set("wall_ms", J::u(crate::now_ms() - t0)));
+        if nviol == 0 {
+            if let Some(r) = tot.inconclusive {
+                emit(&J::obj().set("type", J::s("inconclusive")).set("reason", J::s(&r)));
+                return 2;
+            }
+        }
+        return if nviol > 0 { 1 } else { 0 };
+    }
     'all: for _rep in 0..reps {
         for front in [Front::Wait, Front::Forever, Front::Poll] {
             for s in sites.iter() {
